@@ -2,6 +2,7 @@
 //!   clh mkfixtures [--force]
 //!   clh gen <stream> --tier quick|thorough --seed N     (case lines on stdout)
 //!   clh exec                                            (op lines on stdin -> result lines)
+mod bn;
 mod exec;
 mod fixtures;
 mod reg;
@@ -29,7 +30,7 @@ fn backend() -> &'static str {
 fn gen(stream: &str, tier: &str, seed: u64) -> Result<(), String> {
     let mut rng = Rng::new(seed);
     let thorough = tier == "thorough";
-    let gens: Vec<fn(&str, bool, &mut Rng) -> Option<Result<(), String>>> = vec![reg::gen];
+    let gens: Vec<fn(&str, bool, &mut Rng) -> Option<Result<(), String>>> = vec![reg::gen, bn::gen];
     for g in gens {
         if let Some(r) = g(stream, thorough, &mut rng) {
             return r;
